@@ -145,11 +145,19 @@ def r4_relaunch_serialised(chk: Check):
     c05.r2_marker_shortcircuit(chk)
     c05.r3_lock_while_starting(chk)
     c05.r4_task_side(chk)
+    c05.r5_marker_writers(chk)
+
+
+def r5_stale_tokens_reclaimed(chk: Check):
+    from . import c09
+
+    c09.r3_foreign_holdings_watched(chk)
 
 
 RULES = [
     ("R1", "adoption precedes start: job.aio_process() dominates every start; the adoption branch marks RUNNING, waits for the process, ends DONE/ERROR and never starts the job", r1_adoption_precedes_start),
     ("R2", "adoption decision table of CommandLineJob.aio_process (own process / no pid file / vanished / running / not running); a vanished pid maps to None", r2_adoption_decision),
     ("R3", "the job does not depend on the scheduler's life: stdout/stderr to files, no pipe, detached by default, no preexec_fn, stopping the experiment kills nothing", r3_detached),
-    ("R4", "a relaunch behind a still-running body is serialised by the same lock and then finds the marker (= C05.R2-R4)", r4_relaunch_serialised),
+    ("R4", "a relaunch behind a still-running body is serialised by the same lock and then finds the marker, which nothing removes (= C05.R2-R5)", r4_relaunch_serialised),
+    ("R5", "token holdings left by a dead scheduler are reclaimed after restart: every foreign holding that is read is watched (at construction of the token too) and its watcher deletes it (= C09.R3)", r5_stale_tokens_reclaimed),
 ]
